@@ -39,6 +39,8 @@ type connRec struct {
 	hooks                   [nStages]int
 	postAccept              int
 	otherBefore, otherAfter int
+	fnCalls, fnMulti        int
+	ckSaidOK, otherFailed   bool
 	disc                    int
 	calls                   []int32
 	pushes                  []int32
@@ -138,6 +140,7 @@ type checkerCfg struct {
 	panicAt   int    // 0 never; 1 the checker function panics at once; 2 it panics after its RecvOnce calls (verify code)
 	before    string // a PostAccept plugin registered before the checker: "" absent | ok | reject | panic
 	after     string // ... and one registered behind it
+	setID     string // "" never | pre: sess.SetID(claimedID) before anything is verified | post: only once the verdict is OK
 }
 
 // otherAccept is a second PostAccept plugin; its behaviour is set per case.
@@ -166,7 +169,9 @@ func (o otherAccept) PostAccept(s erpc.PreSession) *erpc.Status {
 	}
 	recMu.Unlock()
 	if b != "ok" {
-		atomic.StoreInt32(&otherFailed, 1)
+		recMu.Lock()
+		recOf(s.RemoteAddr().String()).otherFailed = true
+		recMu.Unlock()
 	}
 	switch b {
 	case "reject":
@@ -178,15 +183,17 @@ func (o otherAccept) PostAccept(s erpc.PreSession) *erpc.Status {
 	return nil
 }
 
-var (
-	curCk   checkerCfg
-	fnCalls int32
-	fnMulti int32
-	// ground truth of the exchange, recorded by the harness' own plugins: the checker function
-	// returned (ret, nil), and no other PostAccept plugin returned a non-OK status or panicked
-	ckSaidOK    int32
-	otherFailed int32
-)
+// curCk is the behaviour of the checker and of the other plugins for the connections of the
+// current case. The ground truth of an exchange is recorded per connection by the harness' own
+// plugins (connRec.ckSaidOK: the checker function returned (ret, nil); connRec.otherFailed: another
+// PostAccept plugin returned a non-OK status or panicked).
+var curCk checkerCfg
+
+func bump(addr string, f func(r *connRec)) {
+	recMu.Lock()
+	f(recOf(addr))
+	recMu.Unlock()
+}
 
 func verdict(c checkerCfg, info []byte) bool {
 	switch c.mode {
@@ -201,22 +208,27 @@ func verdict(c checkerCfg, info []byte) bool {
 var theChecker = auth.NewCheckerPlugin(
 	func(sess auth.Session, fn auth.RecvOnce) (interface{}, *erpc.Status) {
 		c := curCk
+		addr := sess.RemoteAddr().String()
 		var info string
 		var s1 *erpc.Status
 		if c.panicAt == 1 {
 			panic("checker function panics before reading")
 		}
+		if c.setID == "pre" {
+			// names the session after the user it CLAIMS to be, before anything is verified
+			sess.SetID(claimedID)
+		}
 		if c.recvs >= 1 {
-			atomic.AddInt32(&fnCalls, 1)
+			bump(addr, func(r *connRec) { r.fnCalls++ })
 			s1 = fn(&info)
 		}
 		var s2 *erpc.Status
 		if c.recvs >= 2 {
 			var dummy string
-			atomic.AddInt32(&fnCalls, 1)
+			bump(addr, func(r *connRec) { r.fnCalls++ })
 			s2 = fn(&dummy)
 			if s2 == auth.MultiRecvErr {
-				atomic.AddInt32(&fnMulti, 1)
+				bump(addr, func(r *connRec) { r.fnMulti++ })
 			}
 		}
 		if c.panicAt == 2 {
@@ -232,7 +244,10 @@ var theChecker = auth.NewCheckerPlugin(
 		if !verdict(c, []byte(info)) {
 			return nil, erpc.NewStatus(403, "auth fail", "auth fail detail")
 		}
-		atomic.StoreInt32(&ckSaidOK, 1)
+		if c.setID == "post" {
+			sess.SetID(claimedID)
+		}
+		bump(addr, func(r *connRec) { r.ckSaidOK = true })
 		return "pass", nil
 	},
 	erpc.WithBodyCodec('s'),
@@ -381,6 +396,7 @@ type script struct {
 	pauseAt   int    // index of the chunk after which the client waits for the server (-1 none)
 	repliesAt int    // index of the chunk after which the client waits for the expected replies (-1 none)
 	entry     string // serveconn | listener
+	order     string // how the server's plugin chain was configured (serverOrders)
 	human     string
 	class     string
 	split     string
@@ -409,97 +425,162 @@ type outcome struct {
 	rec          connRec
 	recPostAcc   int
 	servedInTime bool
+	resMid       string // state of the resident session holding claimedID (SetID cases): alive | displaced | ...
+	resFin       string
 	authOK       bool // the harness' own plugins: checker verdict OK and nobody else in the chain failed
 }
 
-func runCase(srv erpc.Peer, sc *script) *outcome {
-	curCk = sc.ck
-	atomic.StoreInt32(&fnCalls, 0)
-	atomic.StoreInt32(&fnMulti, 0)
-	atomic.StoreInt32(&ckSaidOK, 0)
-	atomic.StoreInt32(&otherFailed, 0)
-	var (
-		cc       net.Conn
-		addr     string
-		sessOK   int32 // the server produced a session for this connection
-		served   int32
-		isServed func() bool
-	)
-	if sc.entry == "listener" {
-		// the same peer, entered through Peer.ListenAndServe (serveListener). There is no return
-		// value to look at: "served" = the last PostAccept plugin of the chain ran (the chain let the
-		// connection through) or PostDisconnect ran (the connection was refused and closed)
-		c, err := net.Dial("tcp", listenAddr)
-		Must(err)
-		cc = c
-		addr = cc.LocalAddr().String()
-		isServed = func() bool {
-			recMu.Lock()
-			defer recMu.Unlock()
-			r := recOf(addr)
-			if r.postAccept > 0 {
-				atomic.StoreInt32(&sessOK, 1)
-			}
-			return r.postAccept > 0 || r.disc > 0
+// server is one server peer (one way of configuring the plugin chain) with its listener address.
+type server struct {
+	peer       erpc.Peer
+	listenAddr string
+	order      string
+}
+
+const claimedID = "claimed-user"
+
+// liveConn is one scripted client connection to a server, driven in three phases so that two
+// connections can be overlapped: open, sendAll (ends with the snapshot before the half-close), finish.
+type liveConn struct {
+	sv      *server
+	sc      *script
+	cc      net.Conn
+	addr    string
+	sessOK  int32
+	served  int32
+	sess    erpc.Session
+	rmu     sync.Mutex
+	frames  []socket.Message
+	eof     int32
+	o       *outcome
+	overlap bool         // another connection is alive: look only at this connection's own listing
+	res     *liveConn    // the resident session holding claimedID (SetID cases), if any
+	resSess erpc.Session // ... its server-side session
+}
+
+func (l *liveConn) isServed() bool {
+	if l.sc.entry == "listener" {
+		// no return value to look at: "served" = the last PostAccept plugin of the chain ran (the
+		// chain let the connection through) or PostDisconnect ran (refused and closed)
+		recMu.Lock()
+		defer recMu.Unlock()
+		r := recOf(l.addr)
+		if r.postAccept > 0 {
+			atomic.StoreInt32(&l.sessOK, 1)
 		}
+		return r.postAccept > 0 || r.disc > 0
+	}
+	return atomic.LoadInt32(&l.served) == 1
+}
+func (l *liveConn) hasSess() bool { return atomic.LoadInt32(&l.sessOK) == 1 }
+func (l *liveConn) isEOF() bool   { return atomic.LoadInt32(&l.eof) == 1 }
+func (l *liveConn) nReplies() int {
+	l.rmu.Lock()
+	defer l.rmu.Unlock()
+	n := 0
+	for _, m := range l.frames {
+		if m.Mtype() == erpc.TypeReply {
+			n++
+		}
+	}
+	return n
+}
+
+func openConn(sv *server, sc *script) *liveConn {
+	l := &liveConn{sv: sv, sc: sc, o: &outcome{}}
+	if sc.entry == "listener" {
+		c, err := net.Dial("tcp", sv.listenAddr)
+		Must(err)
+		l.cc = c
+		l.addr = c.LocalAddr().String()
 	} else {
 		c, sconn := TCPPair()
-		cc = c
-		addr = cc.LocalAddr().String()
+		l.cc = c
+		l.addr = c.LocalAddr().String()
 		go func() {
-			s, _ := srv.ServeConn(sconn)
+			s, _ := sv.peer.ServeConn(sconn)
 			if s != nil {
-				atomic.StoreInt32(&sessOK, 1)
+				l.sess = s
+				atomic.StoreInt32(&l.sessOK, 1)
 			}
-			atomic.StoreInt32(&served, 1)
+			atomic.StoreInt32(&l.served, 1)
 		}()
-		isServed = func() bool { return atomic.LoadInt32(&served) == 1 }
 	}
-	hasSess := func() bool { return atomic.LoadInt32(&sessOK) == 1 }
-
-	// reader
-	var (
-		rmu    sync.Mutex
-		frames []socket.Message
-		eof    int32
-	)
-	rp := NewRawPeer(cc)
+	rp := NewRawPeer(l.cc)
 	go func() {
 		for {
 			m := socket.NewMessage(socket.WithNewBody(func(socket.Header) interface{} { return new([]byte) }))
 			if err := rp.Sock.ReadMessage(m); err != nil {
-				atomic.StoreInt32(&eof, 1)
+				atomic.StoreInt32(&l.eof, 1)
 				return
 			}
-			rmu.Lock()
-			frames = append(frames, m)
-			rmu.Unlock()
+			l.rmu.Lock()
+			l.frames = append(l.frames, m)
+			l.rmu.Unlock()
 		}
 	}()
-	isEOF := func() bool { return atomic.LoadInt32(&eof) == 1 }
-	nReplies := func() int {
-		rmu.Lock()
-		defer rmu.Unlock()
-		n := 0
-		for _, m := range frames {
-			if m.Mtype() == erpc.TypeReply {
-				n++
-			}
-		}
-		return n
-	}
+	return l
+}
 
+// listedSelf: is THIS connection's session in the index (under its address, or under the id its
+// checker gave it)?
+func (l *liveConn) listedSelf() bool {
+	srv := l.sv.peer
+	if _, ok := srv.GetSession(l.addr); ok {
+		return true
+	}
+	if l.sc.ck.setID != "" {
+		if s, ok := srv.GetSession(claimedID); ok && (l.resSess == nil || s != l.resSess) {
+			return true
+		}
+	}
+	return false
+}
+
+func (l *liveConn) residentListed() bool {
+	if l.resSess == nil {
+		return false
+	}
+	s, ok := l.sv.peer.GetSession(claimedID)
+	return ok && s == l.resSess
+}
+
+func (l *liveConn) snap() snapshot {
+	s := snapshot{served: "blocked"}
+	if l.isServed() {
+		if l.hasSess() {
+			s.served = "accepted"
+		} else {
+			s.served = "rejected"
+		}
+	}
+	s.listed = l.listedSelf()
+	if l.overlap {
+		if s.listed {
+			s.indexed = 1
+		}
+	} else {
+		s.indexed = l.sv.peer.CountSession()
+		if l.residentListed() {
+			s.indexed--
+		}
+	}
+	return s
+}
+
+func (l *liveConn) sendAll() {
+	sc := l.sc
 	var sent []byte
 	waitServer := func() {
 		if needMore(sent) && sc.ck.recvs > 0 && sc.ck.panicAt != 1 && (sc.ck.before == "" || sc.ck.before == "ok") {
 			time.Sleep(settle)
 			return
 		}
-		waitFor(isServed)
+		waitFor(l.isServed)
 	}
 	for i, ch := range sc.chunks {
 		if len(ch) > 0 {
-			if _, err := cc.Write(ch); err != nil {
+			if _, err := l.cc.Write(ch); err != nil {
 				break
 			}
 			sent = append(sent, ch...)
@@ -510,61 +591,71 @@ func runCase(srv erpc.Peer, sc *script) *outcome {
 		if i == sc.repliesAt {
 			// replies of calls still in flight when the loop meets a broken frame are dropped by
 			// design (the session is passively closing): let them arrive first
-			waitFor(func() bool { return isEOF() || nReplies() >= sc.expectReplies })
+			waitFor(func() bool { return l.isEOF() || l.nReplies() >= sc.expectReplies })
 			time.Sleep(2 * time.Millisecond)
 		}
 	}
 	waitServer()
-	if isServed() {
+	if l.isServed() {
 		waitFor(func() bool {
-			if isEOF() {
+			if l.isEOF() {
 				return true
 			}
-			return hasSess() && !sc.expectExit && nReplies() >= sc.expectReplies
+			return l.hasSess() && !sc.expectExit && l.nReplies() >= sc.expectReplies
 		})
-		if hasSess() && sc.entry == "listener" {
+		if l.hasSess() && sc.entry == "listener" {
 			// serveListener indexes the session right after the chain; give that step its time
-			WaitUntil(300*time.Millisecond, func() bool { _, ok := srv.GetSession(addr); return ok || isEOF() })
+			WaitUntil(300*time.Millisecond, func() bool { return l.listedSelf() || l.isEOF() })
 		}
-		if hasSess() && !sc.expectExit {
+		if l.hasSess() && !sc.expectExit {
 			time.Sleep(2 * time.Millisecond)
 		}
 	}
-	o := &outcome{}
-	snap := func() snapshot {
-		s := snapshot{served: "blocked"}
-		if isServed() {
-			if hasSess() {
-				s.served = "accepted"
-			} else {
-				s.served = "rejected"
-			}
-		}
-		s.indexed = srv.CountSession()
-		_, s.listed = srv.GetSession(addr)
-		return s
+	l.o.eofBefore = l.isEOF()
+	l.o.mid = l.snap()
+	if l.res != nil {
+		l.o.resMid = l.residentState()
 	}
-	o.eofBefore = isEOF()
-	o.mid = snap()
+}
 
+// residentState: listed under its id and its connection still open?
+func (l *liveConn) residentState() string {
+	if l.residentListed() && !l.res.isEOF() {
+		return "alive"
+	}
+	if !l.residentListed() && l.res.isEOF() {
+		return "displaced"
+	}
+	if l.residentListed() {
+		return "listed-but-closed"
+	}
+	return "unlisted-but-open"
+}
+
+func (l *liveConn) finish() *outcome {
+	o := l.o
 	// client half-closes; everything the server still writes is read until the server closes
-	cc.(*net.TCPConn).CloseWrite()
-	o.eofAfter = waitFor(isEOF)
-	o.servedInTime = waitFor(isServed)
+	l.cc.(*net.TCPConn).CloseWrite()
+	o.eofAfter = waitFor(l.isEOF)
+	o.servedInTime = waitFor(l.isServed)
 	waitFor(func() bool {
 		recMu.Lock()
 		defer recMu.Unlock()
-		return recOf(addr).disc >= 1
+		return recOf(l.addr).disc >= 1
 	})
 	// a session removes itself from the index before PostDisconnect; allow the map to settle
-	WaitUntil(200*time.Millisecond, func() bool { return srv.CountSession() == 0 })
-	o.fin = snap()
-	cc.Close()
-	o.fnCalls = int(atomic.LoadInt32(&fnCalls))
-	o.fnMulti = int(atomic.LoadInt32(&fnMulti))
-	o.authOK = atomic.LoadInt32(&ckSaidOK) == 1 && atomic.LoadInt32(&otherFailed) == 0
-	rmu.Lock()
-	for _, m := range frames {
+	WaitUntil(200*time.Millisecond, func() bool { return !l.listedSelf() })
+	o.fin = l.snap()
+	if l.res != nil {
+		// a displaced resident is closed by the hub in a goroutine of its own: give it its time
+		if !l.residentListed() {
+			WaitUntil(500*time.Millisecond, l.res.isEOF)
+		}
+		o.resFin = l.residentState()
+	}
+	l.cc.Close()
+	l.rmu.Lock()
+	for _, m := range l.frames {
 		code := int(m.Status().Code())
 		switch m.Mtype() {
 		case erpc.TypeAuthReply:
@@ -575,7 +666,7 @@ func runCase(srv erpc.Peer, sc *script) *outcome {
 			o.otherFrames++
 		}
 	}
-	rmu.Unlock()
+	l.rmu.Unlock()
 	sort.Slice(o.replies, func(i, j int) bool {
 		if o.replies[i][0] != o.replies[j][0] {
 			return o.replies[i][0] < o.replies[j][0]
@@ -583,14 +674,77 @@ func runCase(srv erpc.Peer, sc *script) *outcome {
 		return o.replies[i][1] < o.replies[j][1]
 	})
 	recMu.Lock()
-	o.rec = *recOf(addr)
+	o.rec = *recOf(l.addr)
 	o.rec.calls = append([]int32(nil), o.rec.calls...)
 	o.rec.pushes = append([]int32(nil), o.rec.pushes...)
-	delete(recs, addr)
+	delete(recs, l.addr)
 	recMu.Unlock()
+	o.fnCalls, o.fnMulti = o.rec.fnCalls, o.rec.fnMulti
+	o.authOK = o.rec.ckSaidOK && !o.rec.otherFailed
 	sort.Slice(o.rec.calls, func(i, j int) bool { return o.rec.calls[i] < o.rec.calls[j] })
 	sort.Slice(o.rec.pushes, func(i, j int) bool { return o.rec.pushes[i] < o.rec.pushes[j] })
 	return o
+}
+
+// openResident establishes an authenticated session that holds claimedID (its checker accepts
+// without an exchange and names the session after accepting), through ServeConn.
+func openResident(sv *server) *liveConn {
+	curCk = checkerCfg{recvs: 0, mode: "all", setID: "post"}
+	r := openConn(sv, &script{entry: "serveconn", pauseAt: -1, repliesAt: -1})
+	waitFor(r.isServed)
+	if r.sess == nil {
+		Must(fmt.Errorf("could not establish the resident session"))
+	}
+	waitFor(func() bool { s, ok := sv.peer.GetSession(claimedID); return ok && s == r.sess })
+	return r
+}
+
+func closeResident(sv *server, r *liveConn) {
+	r.cc.Close()
+	waitFor(func() bool {
+		recMu.Lock()
+		defer recMu.Unlock()
+		return recOf(r.addr).disc >= 1
+	})
+	recMu.Lock()
+	delete(recs, r.addr)
+	recMu.Unlock()
+	waitFor(func() bool { return sv.peer.CountSession() == 0 })
+}
+
+func runCase(sv *server, sc *script) *outcome {
+	var res *liveConn
+	if sc.ck.setID != "" {
+		res = openResident(sv)
+	}
+	curCk = sc.ck
+	l := openConn(sv, sc)
+	if res != nil {
+		l.res, l.resSess = res, res.sess
+	}
+	l.sendAll()
+	o := l.finish()
+	if res != nil {
+		closeResident(sv, res)
+	}
+	return o
+}
+
+// runOverlap: two connections through the listener whose accept phases overlap: both are
+// connected (and pending in the checker's read) before either sends anything; then A sends its
+// stream, then B. Each must behave exactly as it would alone.
+func runOverlap(sv *server, a, b *script) (*outcome, *outcome) {
+	curCk = a.ck
+	la := openConn(sv, a)
+	lb := openConn(sv, b)
+	la.overlap, lb.overlap = true, true
+	time.Sleep(settle) // both connections accepted by the listener, both checkers waiting for a frame
+	la.sendAll()
+	lb.sendAll()
+	oa := la.finish()
+	ob := lb.finish()
+	waitFor(func() bool { return sv.peer.CountSession() == 0 })
+	return oa, ob
 }
 
 // ---- rendering
@@ -626,7 +780,15 @@ func render(o *outcome) string {
 	return VL(vsnap(o.mid), VBool(o.eofBefore), vsnap(o.fin),
 		VL(VN(int64(o.fnCalls)), VN(int64(o.fnMulti))),
 		VL(ar...), VL(VN(int64(o.rec.otherBefore)), VN(int64(o.rec.otherAfter))), VN(int64(o.rec.postAccept)), VN(int64(o.rec.disc)),
-		VL(hooks...), vints32(o.rec.calls), vints32(o.rec.pushes), VL(rep...), VN(int64(o.otherFrames)))
+		VL(hooks...), vints32(o.rec.calls), vints32(o.rec.pushes), VL(rep...), VN(int64(o.otherFrames)),
+		VL(resSym(o.resMid), resSym(o.resFin)))
+}
+
+func resSym(s string) string {
+	if s == "" {
+		return VS("none")
+	}
+	return VS(s)
 }
 
 func vcase(sc *script) string {
@@ -641,7 +803,7 @@ func vcase(sc *script) string {
 		return VS(b)
 	}
 	return VL(VN(sizeLimit), VL(VN(int64(sc.ck.recvs)), VBool(sc.ck.propagate), VS(sc.ck.mode), VB(sc.ck.token),
-		VN(int64(sc.ck.panicAt)), hb(sc.ck.before), hb(sc.ck.after)), VL(ch...), VS(sc.entry))
+		VN(int64(sc.ck.panicAt)), hb(sc.ck.before), hb(sc.ck.after), hb(sc.ck.setID)), VL(ch...), VS(sc.entry), VS(sc.order))
 }
 
 // ---- oracle on the implementation's own observations
@@ -693,6 +855,9 @@ func oracle(st *Stats, i int, sc *script, o *outcome) {
 		if okReplies != 1 || len(o.authReplies) != 1 {
 			st.Fail(i, "exchange-not-once", Fmt("accepted connection saw AUTH_REPLY codes %v (want exactly one, OK)", o.authReplies), h)
 		}
+	}
+	if o.resFin != "" && !(accepted && o.authOK) && (o.resMid != "alive" || o.resFin != "alive") {
+		st.Fail(i, "unauthenticated-displaced-session", Fmt("a connection that did not authenticate claimed an id during the exchange and the authenticated session holding it is %s / %s", o.resMid, o.resFin), h)
 	}
 	if len(o.authReplies) > 1 {
 		st.Fail(i, "exchange-not-once", Fmt("more than one AUTH_REPLY on one connection: %v", o.authReplies), h)
@@ -862,12 +1027,18 @@ func split(cfg *RunCfg, first, rest []byte, _ bool) ([][]byte, int, string) {
 	}
 }
 
-func genCase(cfg *RunCfg) *script {
+// genCase draws one connection's case. With force != nil the checker behaviour is given (the
+// overlap family runs two connections under one behaviour) and forceClass, if set, the first action.
+func genCase(cfg *RunCfg, force *checkerCfg, forceClass string) *script {
 	r := cfg.Rng
 	sc := &script{pauseAt: -1, repliesAt: -1}
 	token := genToken(cfg)
 	ck := checkerCfg{recvs: 1, mode: "eq", token: token}
-	switch k := r.Intn(20); {
+	kk := r.Intn(20)
+	if force != nil {
+		kk = 0
+	}
+	switch k := kk; {
 	case k < 11:
 	case k < 13:
 		ck.mode = "none"
@@ -885,7 +1056,11 @@ func genCase(cfg *RunCfg) *script {
 		ck.mode = "all"
 	}
 	// the rest of the PostAccept chain and faults inside the checker
-	switch k := r.Intn(16); {
+	kc := r.Intn(16)
+	if force != nil {
+		kc = 0
+	}
+	switch k := kc; {
 	case k < 9:
 	case k == 9:
 		ck.panicAt = 1
@@ -898,6 +1073,12 @@ func genCase(cfg *RunCfg) *script {
 	default:
 		ck.before = []string{"ok", "reject", "panic"}[r.Intn(3)]
 		ck.after = []string{"ok", "reject", "panic"}[r.Intn(3)]
+	}
+	if force != nil {
+		ck = *force
+		token = ck.token
+	} else if r.Intn(5) == 0 {
+		ck.setID = []string{"pre", "pre", "post"}[r.Intn(3)]
 	}
 	chainOK := ck.panicAt == 0 && (ck.before == "" || ck.before == "ok") && (ck.after == "" || ck.after == "ok")
 	loopFirst := ck.recvs == 0 && ck.mode == "all" && chainOK // every byte goes to the read loop
@@ -912,6 +1093,9 @@ func genCase(cfg *RunCfg) *script {
 		classes = []string{"call", "push", "reply", "nothing", "truncated", "malformed"}
 	}
 	cl := classes[r.Intn(len(classes))]
+	if forceClass != "" {
+		cl = forceClass
+	}
 	if cl == "malformed" && ck.mode == "all" && !loopFirst {
 		cl = "auth-wrong"
 	}
@@ -1055,12 +1239,60 @@ func genCase(cfg *RunCfg) *script {
 	}
 	sc.ck = ck
 	sc.entry = []string{"serveconn", "listener"}[r.Intn(2)]
-	sc.human = fmt.Sprintf("entry=%s chain(before=%q panic-at=%d after=%q) checker(recvs=%d propagate=%v mode=%s token=%q) first=%s suffix=[%s] split=%s stream=%s",
-		sc.entry, ck.before, ck.panicAt, ck.after, ck.recvs, ck.propagate, ck.mode, token, sc.class, labels, sc.split, Hx(append(append(append([]byte(nil), first...), rest...), tail...)))
+	sc.order = serverOrders[r.Intn(len(serverOrders))]
+	if force != nil {
+		sc.entry = "listener"
+	}
+	sc.human = fmt.Sprintf("entry=%s config-order=%s set-id=%q chain(before=%q panic-at=%d after=%q) checker(recvs=%d propagate=%v mode=%s token=%q) first=%s suffix=[%s] split=%s stream=%s",
+		sc.entry, sc.order, ck.setID, ck.before, ck.panicAt, ck.after, ck.recvs, ck.propagate, ck.mode, token, sc.class, labels, sc.split, Hx(append(append(append([]byte(nil), first...), rest...), tail...)))
 	return sc
 }
 
-var listenAddr string
+// serverOrders: three ways of putting the same plugin chain on a server peer. The accept path must not
+// depend on it.
+var serverOrders = []string{"newpeer", "append-right-after-routes", "append-left-before-routes"}
+
+func newServerPeer(order string) *server {
+	// a free loopback port for the ListenAndServe entry point
+	pl, err := net.Listen("tcp", "127.0.0.1:0")
+	Must(err)
+	port := pl.Addr().(*net.TCPAddr).Port
+	pl.Close()
+	sv := &server{order: order, listenAddr: Fmt("127.0.0.1:%d", port)}
+	pc := erpc.PeerConfig{LocalIP: "127.0.0.1", ListenPort: uint16(port)}
+	chain := []erpc.Plugin{otherAccept{after: false}, theChecker, otherAccept{after: true}, recorder{}}
+	switch order {
+	case "newpeer":
+		sv.peer = erpc.NewPeer(pc, chain...)
+		sv.peer.RouteCall(new(App))
+		sv.peer.RoutePush(new(Note))
+	case "append-right-after-routes":
+		sv.peer = erpc.NewPeer(pc)
+		sv.peer.RouteCall(new(App))
+		sv.peer.RoutePush(new(Note))
+		sv.peer.PluginContainer().AppendRight(chain...)
+	default: // append-left-before-routes
+		sv.peer = erpc.NewPeer(pc)
+		sv.peer.PluginContainer().AppendLeft(chain...)
+		sv.peer.RouteCall(new(App))
+		sv.peer.RoutePush(new(Note))
+	}
+	go sv.peer.ListenAndServe()
+	if !WaitUntil(longWait, func() bool {
+		c, err := net.DialTimeout("tcp", sv.listenAddr, time.Second)
+		if err != nil {
+			return false
+		}
+		c.Close()
+		return true
+	}) {
+		Must(fmt.Errorf("the listener did not come up"))
+	}
+	// the probe connection was served by the chain (it sent nothing); let it drain
+	WaitUntil(longWait, func() bool { return sv.peer.CountSession() == 0 })
+	time.Sleep(20 * time.Millisecond)
+	return sv
+}
 
 var modeFlag = flag.String("mode", "server", "server | bearer")
 
@@ -1078,29 +1310,10 @@ func main() {
 		runBearer(cfg)
 		return
 	}
-	// a free loopback port for the ListenAndServe entry point
-	pl, err := net.Listen("tcp", "127.0.0.1:0")
-	Must(err)
-	port := pl.Addr().(*net.TCPAddr).Port
-	pl.Close()
-	listenAddr = Fmt("127.0.0.1:%d", port)
-	srv := erpc.NewPeer(erpc.PeerConfig{LocalIP: "127.0.0.1", ListenPort: uint16(port)}, otherAccept{after: false}, theChecker, otherAccept{after: true}, recorder{})
-	srv.RouteCall(new(App))
-	srv.RoutePush(new(Note))
-	go srv.ListenAndServe()
-	if !WaitUntil(longWait, func() bool {
-		c, err := net.DialTimeout("tcp", listenAddr, time.Second)
-		if err != nil {
-			return false
-		}
-		c.Close()
-		return true
-	}) {
-		Must(fmt.Errorf("the listener did not come up"))
+	servers := map[string]*server{}
+	for _, order := range serverOrders {
+		servers[order] = newServerPeer(order)
 	}
-	// the probe connection above was refused by the chain (it sent nothing); let it drain
-	WaitUntil(longWait, func() bool { return srv.CountSession() == 0 })
-	time.Sleep(20 * time.Millisecond)
 	recMu.Lock()
 	recs = map[string]*connRec{}
 	recMu.Unlock()
@@ -1115,31 +1328,55 @@ func main() {
 			break // the tree already fails the oracle many times over; do not sit through every timeout
 		}
 		done++
-		sc := genCase(cfg)
-		o := runCase(srv, sc)
-		st.Count("first:" + sc.class)
-		st.Count("split:" + sc.split)
-		st.Count("entry:" + sc.entry)
-		st.Count(Fmt("checker:recvs=%d,propagate=%v,mode=%s", sc.ck.recvs, sc.ck.propagate, sc.ck.mode))
-		st.Count(Fmt("chain:before=%s,panic-at=%d,after=%s", sc.ck.before, sc.ck.panicAt, sc.ck.after))
-		st.Count("outcome:" + o.mid.served + "->" + o.fin.served)
-		if sc.sufClass != "" {
-			st.Count("suffix:nonempty")
-		} else {
-			st.Count("suffix:empty")
+		record := func(sc *script, o *outcome) {
+			st.Count("first:" + sc.class)
+			st.Count("split:" + sc.split)
+			st.Count("entry:" + sc.entry)
+			st.Count("config-order:" + sc.order)
+			st.Count(Fmt("checker:recvs=%d,propagate=%v,mode=%s", sc.ck.recvs, sc.ck.propagate, sc.ck.mode))
+			st.Count(Fmt("chain:before=%s,panic-at=%d,after=%s", sc.ck.before, sc.ck.panicAt, sc.ck.after))
+			st.Count("set-id:" + sc.ck.setID)
+			st.Count("outcome:" + o.mid.served + "->" + o.fin.served)
+			if sc.sufClass != "" {
+				st.Count("suffix:nonempty")
+			} else {
+				st.Count("suffix:empty")
+			}
+			oracle(st, i, sc, o)
+			var all []byte
+			for _, c := range sc.chunks {
+				all = append(all, c...)
+			}
+			if len(all) > 0 {
+				distinct.Add(Fmt("%d/%v/%s/%d/%s/%s/%s/%x/%s", sc.ck.recvs, sc.ck.propagate, sc.ck.mode, sc.ck.panicAt, sc.ck.before, sc.ck.after, sc.ck.setID, all, sc.split+sc.entry+sc.order))
+			}
+			if len(st.Samples) < 6 {
+				st.Samples = append(st.Samples, sc.human+" => "+render(o))
+			}
 		}
-		oracle(st, i, sc, o)
+		if cfg.Rng.Intn(8) == 0 {
+			// two connections whose accept phases overlap (listener entry)
+			ck := checkerCfg{recvs: 1, mode: "eq", token: genToken(cfg)}
+			classA := ""
+			if cfg.Rng.Intn(3) != 0 {
+				classA = "auth-ok"
+			}
+			a := genCase(cfg, &ck, classA)
+			b := genCase(cfg, &ck, "")
+			b.order = a.order
+			a.human, b.human = "overlap A: "+a.human, "overlap B (connected while A was pending): "+b.human
+			oa, ob := runOverlap(servers[a.order], a, b)
+			st.Count("family:overlap")
+			record(a, oa)
+			record(b, ob)
+			w.Add(VL(VS("overlap"), vcase(a), vcase(b)), VL(render(oa), render(ob)))
+			continue
+		}
+		sc := genCase(cfg, nil, "")
+		o := runCase(servers[sc.order], sc)
+		st.Count("family:single")
+		record(sc, o)
 		w.Add(vcase(sc), render(o))
-		var all []byte
-		for _, c := range sc.chunks {
-			all = append(all, c...)
-		}
-		if len(all) > 0 {
-			distinct.Add(Fmt("%d/%v/%s/%d/%s/%s/%x/%s", sc.ck.recvs, sc.ck.propagate, sc.ck.mode, sc.ck.panicAt, sc.ck.before, sc.ck.after, all, sc.split+sc.entry))
-		}
-		if len(st.Samples) < 6 {
-			st.Samples = append(st.Samples, sc.human+" => "+render(o))
-		}
 	}
 	st.Evaluations = done
 	st.DistinctNontrivial = len(distinct)
